@@ -109,7 +109,7 @@ def build():
                   (r'let (mut )?guard = cache\s*\.lock\(\)\s*\.unwrap_or_else\(\|poisoned\| poisoned\.into_inner\(\)\);', r'let \1guard = verif_acquire();', 'L1-acquire'),
                   (r'return Arc::clone\(plan\);', '{ verif_release(&guard); return Arc::clone(plan); }', 'L1-release-at-return'),
                   (r'\n(\s*)\}\s*\n\s*let generated = ', r'\n\1 verif_release(&guard);\n\1}\n\n    let generated = ', 'L1-release-at-scope-end'),
-                  (r'\n(\s*)generated\s*\n\}$', r'\n\1verif_release(&guard);\n\1generated\n}', 'L1-release-at-final-exit'),
+                  (r'\n(\s*)(return )?generated;?\s*\n\}$', r'\n\1verif_release(&guard);\n\1generated\n}', 'L1-release-at-final-exit'),
                   ],
          ensures=['is_plan_for(*r, symbol_count)'],
          inserts=[('if guard.plans.len() >= SOURCE_BLOCK_ENCODING_PLAN_CACHE_CAPACITY', 'before',
